@@ -6,6 +6,7 @@
 -/
 import NiftyVerif.Lemmas.Descent
 import NiftyVerif.Lemmas.LineSearch
+import NiftyVerif.Lemmas.LineSearchInterp
 import NiftyVerif.Lemmas.Lbfgs
 import NiftyVerif.Lemmas.LbfgsRun
 
@@ -117,10 +118,29 @@ theorem ls_returns_evaluated_point (c : Consts K) (p : Params K) (t : List (Ev K
     exact (runLS_ret c p t s' a hrun).2
   · cases h
 
+/-! ### the interpolated steps of `_zoom` (now recomputed by the checker from the recorded values, see `alphaJOk`) -/
+
+/-- `_quadmin`: the returned step is the stationary point of the quadratic with value `fa`, slope `fpa` at `a` that
+    passes through `(b, fb)` -/
+theorem quadmin_stationary (a fa fpa b fb q : K) (h : quadmin a fa fpa b fb = some q) :
+    ∃ B : K, quadPoly a fa fpa B a = fa ∧ quadPoly a fa fpa B b = fb ∧ fpa + (B + B) * (q - a) = 0 :=
+  quadmin_spec a fa fpa b fb q h
+
+/-- `_cubicmin`: the coefficients `A, B` give the cubic (value `fa`, slope `fpa` at `a`) through `(b, fb)`, `(c, fc)` -/
+theorem cubicmin_interpolates (a fa fpa b fb cc fc A B : K) (h : cubicAB a fa fpa b fb cc fc = some (A, B)) :
+    cubicPoly fa fpa B A (b - a) = fb ∧ cubicPoly fa fpa B A (cc - a) = fc :=
+  cubicAB_interpolates a fa fpa b fb cc fc A B h
+
+/-- `_cubicmin`: `t` is a stationary point of that cubic iff `(3At + B)² = B² − 3AC`, i.e. iff
+    `t = (−B ± sqrt(B² − 3AC))/(3A)` — the formula of the code; the checker tests `p'(t) ≈ 0` on the `+` branch -/
+theorem cubicmin_stationary (A B C t : K) (hA : A ≠ 0) :
+    (3 * A * t * t + 2 * B * t + C = 0) ↔ (3 * A * t + B) * (3 * A * t + B) = B * B - 3 * A * C :=
+  cubic_stationary_iff A B C t hA
+
 /-- non-vacuity (a test, not a proof): a recorded run with one expansion step, a `_zoom` call and success is accepted.
     φ(α) = (α-3)², φ'(α) = 2(α-3): α = 1 (slope too steep) → α = 2 … here scripted values. -/
 example : acceptsLS (K := Rat)
-    ⟨1, 1/2, 99/100, 101/50, 1/10, 1/5, 10 ^ 100, 1 / 10 ^ 9⟩
+    ⟨1, 1/2, 99/100, 101/50, 1/10, 1/5, 10 ^ 100, 1 / 10 ^ 9, 1 / 2 ^ 42⟩
     ⟨1/10000, 1/10, 1000, none, 100, 100, some 1, none, 1, 9, -6⟩
     [⟨1, .num 4, some (-4)⟩, ⟨2, .num 1, some (-2)⟩, ⟨4, .num 1, none⟩, ⟨3, .num 0, some 0⟩] true 3 = true := by
   decide +kernel
